@@ -609,7 +609,7 @@ func genC14(r *R, sc *Scenario, tier string) {
 		sc.Scripts[name+".*"] = &TokenScript{Launches: []simos.Script{{LifeMs: life, TermLagMs: Pick(r, 0, 0, 10, 200), ExitOnSig: Pick(r, 0, 143),
 			Out: []simos.OutChunk{{AtMs: 1, Stream: 1, Data: "I am %T now\n"}}}}}
 		if r.P(400) {
-			p.Env = []string{"K=" + Pick(r, "a", "b")}
+			p.Env = []string{"K=" + Pick(r, "a", "b", "-Xmx1g -Dmode=a", "-Xmx1g -Dmode=a")}
 			if r.P(300) {
 				p.Env = append(p.Env, "L=1")
 			}
@@ -726,6 +726,17 @@ func genC14(r *R, sc *Scenario, tier string) {
 					p.Token = fmt.Sprintf("%s.v%d", p.Name, u+1)
 				case 1:
 					p.Env = []string{"K=" + Pick(r, "c", "d", "e") + fmt.Sprint(u)}
+					if r.P(600) {
+						// a value with '=' in it; only what follows the second '=' changes
+						p.Env = []string{"K=-Xmx1g -Dmode=" + Pick(r, "c", "d", "e") + fmt.Sprint(u)}
+						if len(p.Env) > 0 && r.P(500) {
+							for _, o := range cur.Procs {
+								if o.Name == p.Name && len(o.Env) == 1 && !strings.Contains(o.Env[0], "-Dmode=") {
+									break
+								}
+							}
+						}
+					}
 					p.RawYAML = ""
 				case 2:
 					if p.WorkingDir == "d1" {
